@@ -115,8 +115,10 @@ func c05cRun(c c05bCase) (out Outcome) {
 				if r.Error == nil {
 					return viol("calls-missing-or-duplicated", "call %s never reached the wire but got a success", markers[i])
 				}
-			default:
-				return viol("calls-missing-or-duplicated", "call %s neither reached the wire nor was failed when the client was closed", markers[i])
+			case <-time.After(60 * time.Second):
+				// (the batching goroutine fails what it still holds when it notices the close: that is
+				// asynchronous, so give it real time - a minute without a result is not slowness)
+				return viol("calls-missing-or-duplicated", "call %s neither reached the wire nor was failed within a minute of the client being closed", markers[i])
 			}
 		}
 	}
